@@ -11,7 +11,9 @@ import (
 // joinRun: krt.JoinCollection over 2-3 static collections of Obj, a namespace index on the join,
 // subscribers on the join.  Lean: JoinSpec.lean / JoinDriver.lean.
 type joinRun struct {
-	flagged bool
+	derived   bool // jd: the joined collections are derived copies of the static ones
+	unchecked bool // ju: krt.WithJoinUnchecked (the generator keeps the keys disjoint)
+	flagged   bool
 	started bool
 	stop    chan struct{}
 	cols    []krt.StaticCollection[Obj]
@@ -29,7 +31,7 @@ func newJoinRun(head []string) runner {
 	if err != nil || n < 0 {
 		n = 2
 	}
-	r := &joinRun{flagged: contains(head[4:], "jr"), stop: make(chan struct{}), touched: map[string][]int{},
+	r := &joinRun{flagged: contains(head[4:], "jr"), derived: contains(head[4:], "jd"), unchecked: contains(head[4:], "ju"), stop: make(chan struct{}), touched: map[string][]int{},
 		subs: map[string]*subscriber{}}
 	for i := 0; i < n; i++ {
 		r.cols = append(r.cols, krt.NewStaticCollection[Obj](nil, nil, krt.WithStop(r.stop), krt.WithName("c"+strconv.Itoa(i))))
@@ -102,8 +104,16 @@ func (r *joinRun) start() {
 	cs := make([]krt.Collection[Obj], len(r.cols))
 	for i, c := range r.cols {
 		cs[i] = c
+		if r.derived {
+			cs[i] = krt.NewCollection[Obj, Obj](c, func(ctx krt.HandlerContext, o Obj) *Obj { return &o },
+				krt.WithStop(r.stop), krt.WithName("d"+strconv.Itoa(i)))
+		}
 	}
-	r.j = krt.JoinCollection(cs, krt.WithStop(r.stop), krt.WithName("join"))
+	opts := []krt.CollectionOption{krt.WithStop(r.stop), krt.WithName("join")}
+	if r.unchecked {
+		opts = append(opts, krt.WithJoinUnchecked())
+	}
+	r.j = krt.JoinCollection(cs, opts...)
 	r.idx = krt.NewIndex[string, Obj](r.j, "ns", func(o Obj) []string { return []string{o.NS} })
 	r.startState()
 }
